@@ -134,6 +134,19 @@ impl TcpState {
     pub fn take_seg(&mut self, k: &(Instant, u64)) -> Option<TcpSeg> {
         self.segs.remove(k)
     }
+    /// The total partition is still on when a segment would arrive: this (re)transmission is lost too. Returns the
+    /// instant of the next attempt and moves the direction's in-order floor there, so nothing sent later overtakes it.
+    pub fn hold_back(&mut self, seg: &TcpSeg, at: Instant) -> Instant {
+        let Some(c) = self.conns.get_mut(&seg.conn) else { return at };
+        let e = &mut c.ends[1 - seg.to_end];
+        let at = e.last_at.map(|l| l.max(at)).unwrap_or(at);
+        e.last_at = Some(at);
+        e.last_data_key = None;
+        at
+    }
+    pub fn put_seg(&mut self, k: (Instant, u64), seg: TcpSeg) {
+        self.segs.insert(k, seg);
+    }
     pub fn open_connections(&self) -> usize {
         self.conns.len()
     }
